@@ -38,12 +38,13 @@ extern "C" int __lsan_do_recoverable_leak_check();
 #endif
 
 // ---------------------------------------------------------------- Xerces side
-// File manager with a per-parse budget of open() calls: the reference needs < 20 opens for any case of the enumerated spaces; an
+// File manager with a per-parse budget of open() calls: the real library needs far fewer opens for any case of the
+// enumerated spaces (counter xerces_opens_over_20); an
 // implementation that does not notice an inclusion loop would recurse until the stack or the 20 s watchdog ends it.  After kOpenBudget
 // opens every further open fails (the resource "disappears"), which ends the recursion at once, and the case is reported as
 // `runaway-inclusion` - a fast, deterministic stand-in for the hang.
 struct GuardVfs : public Vfs {
-    static const uint64_t kOpenBudget = 200;
+    static const uint64_t kOpenBudget = 60;
     uint64_t opens = 0;
     bool tripped = false;
     bool admit() { if (++opens > kOpenBudget) { tripped = true; return false; } return true; }
@@ -310,7 +311,7 @@ static void evaluate(const Case& cs, Ctx& c) {
         if (!x.exc.empty() && api == 0) c.count("xerces_exc:" + x.exc);
         std::vector<std::pair<std::string, std::string>> disc;  // (kind, detail)
         if (x.runaway) disc.push_back({"runaway-inclusion", "more than " + std::to_string(GuardVfs::kOpenBudget) + " files opened"});
-        if (api == 0) c.count("xerces_file_opens", x.opens);
+        if (api == 0) { c.count("xerces_file_opens", x.opens); if (x.opens > 20) c.count("xerces_opens_over_20"); }
         if (x.exc.compare(0, 8, "FOREIGN:") == 0 || x.exc == "OutOfMemoryException") disc.push_back({"foreign-exception", x.exc});
         std::vector<std::string> got = filter_lines(x.lines);
         bool treeEq = false, baseEq = false;
